@@ -268,8 +268,9 @@ def run(ctx):
     size = None
     ok, seen = True, 0
     for p in paths:
-        for lp in p.of("LOOP"):
-            it = lp["iter"]
+        comps = [x for v in ([p.retval] if p.returns and p.retval is not None else []) for x in N.walk(v) if x[0] == "comp" and len(x[3]) == 1 and not x[3][0][1]]
+        entries = [(e["args"][0], bool(e.loops)) for e in p.of("MUT") if e["method"] == "append" and e["args"]] + [(c[2], True) for c in comps]
+        for it in [lp["iter"] for lp in p.of("LOOP")] + [c[3][0][0] for c in comps]:
             rng = it[2][0] if it[0] == "call" and it[1] == ("free", "reversed") and len(it[2]) == 1 else None
             desc = rng is not None and rng[0] == "call" and rng[1] == ("free", "range") and len(rng[2]) == 1
             if not desc and it[0] == "call" and it[1] == ("free", "range") and len(it[2]) == 3:
@@ -280,16 +281,16 @@ def run(ctx):
             if desc:
                 n = rng[2][0]
                 ok = ok and n[0] == "lin" and len(n[1]) == 1 and n[1][0][1] == 8 and n[2] == 0 and n[1][0][0][:3] == ("subres", "sizeof", N.selfattr("subcon"))
-        for e in p.of("MUT"):
-            if e["method"] != "append" or not e["args"] or e["args"][0][0] != "call" or e["args"][0][1] != ("free", "dict"):
+        for entry, in_loop in entries:
+            if entry[0] != "call" or entry[1] != ("free", "dict"):
                 continue
             seen += 1
-            d = dict(e["args"][0][3])
+            d = dict(entry[3])
             ident = d.get("id")
             good = d.get("type") == N.const("b1") and ident is not None and ident[0] == "call" and ident[1] == ("attr", N.selfattr("reverseflags"), "get") and len(ident[2]) == 2
             if good:
                 mask = ident[2][0]
-                good = mask[0] == "bin" and mask[1] == "<<" and mask[2] == N.const(1) and mask[3][0] in ("idx", "elem") and e.loops
+                good = mask[0] == "bin" and mask[1] == "<<" and mask[2] == N.const(1) and mask[3][0] in ("idx", "elem") and in_loop
             ok = ok and good
     ctx.ob("C19.R2", fi, ok and seen >= 1, "FlagsEnum._emitseq lists one b1 per bit of the field, each named after the flag with mask 1<<i, from the most significant bit down", key="FlagsEnum bit order")
     ctx.floor("C19.R2", 23 + 6 + 55 + 6)
